@@ -143,6 +143,11 @@ func runCheck(repo, verif, prop, tier string, timeout, par int, keep bool) int {
 			pats = append(pats, "./x/"+m)
 		}
 	}
+	for _, rule := range writerRules[prop] {
+		for _, rel := range rule.Pkgs {
+			pats = append(pats, "./"+rel)
+		}
+	}
 	if len(pats) == 0 {
 		return broken("no contract serves this property")
 	}
@@ -178,6 +183,9 @@ func runCheck(repo, verif, prop, tier string, timeout, par int, keep bool) int {
 	}
 	if prop == "C05" {
 		results = append(results, w.structuralC05())
+	}
+	if r := w.structuralWriters(prop); r != nil {
+		results = append(results, r)
 	}
 	outDir := filepath.Join(verif, "out", prop+"-"+tier)
 	if os.Getenv("VERIF_EVIDENCE_DIR") != "" {
